@@ -26,6 +26,14 @@ Lemma cover_false : forall ct cf vt vf loop,
   d_follow_false (jumpi_decide ct cf vt vf loop) = true \/ d_logged (jumpi_decide ct cf vt vf loop) = true.
 Proof. intros ct cf vt vf loop H. unfold R_UNSAT in H. jumpi_crush. Qed.
 
+(* with a decided condition only one side is followed: both sides followed means the
+   condition is symbolic (used for the invalid-destination case of SEVM.jumpi) *)
+Lemma both_followed_symbolic : forall ct cf vt vf loop,
+  d_follow_true (jumpi_decide ct cf vt vf loop) = true ->
+  d_follow_false (jumpi_decide ct cf vt vf loop) = true ->
+  d_symbolic (jumpi_decide ct cf vt vf loop) = true.
+Proof. intros ct cf vt vf loop. jumpi_crush. Qed.
+
 (* a side that is followed was not proved infeasible *)
 Lemma follow_true_potential : forall ct cf vt vf loop,
   d_follow_true (jumpi_decide ct cf vt vf loop) = true -> ct <> R_UNSAT.
